@@ -35,7 +35,10 @@ def run(ctx):
     ctx.rule("R15-8", "source / scripts / functions leave no residue in the shell when they fail: in the interpreter entry "
                       "points (run_script, run_lines, try_run_func, source) every `field += k` on the shell is matched by "
                       "`field -= k` on EVERY path to a return, the early error returns included")
+    ctx.rule("R15-9", "a function defined again replaces the earlier definition: Shell::set_func stores with an unconditional "
+                      "HashMap::insert on every path (not entry().or_insert.., not behind a contains_key test)")
     for crate in ctx.crates:
+        overwrite_rule(ctx, crate, "R15-9", "shell::Shell::set_func", "funcs")
         pairing_rule(ctx, crate)
         accumulator_rule(ctx, crate)
         from .. import editlist
@@ -425,3 +428,21 @@ def pairing_rule(ctx, crate):
                        "enough failures every later source / call is refused or miscounted")
     ctx.ob("R15-8", "interpreter", "%d increment(s) of shell fields in the interpreter entry points" % n, True, crate=crate.kind,
            nontrivial=False)
+
+
+def overwrite_rule(ctx, crate, rule, path, field):
+    b = crate.fn(path)
+    if not ctx.require(b is not None, rule, "%s|anchor|%s" % (rule, path), "%s not found" % path):
+        return
+    ctx.analysed(b)
+    on_field = lambda bb: any(flow.is_field_named(x, field) for a in b.call_args(bb)
+                              for x in mir.subexprs(b.expand_vars(strip_sites(a))))
+    inserts = {bb for bb, t, c in b.calls() if last_seg(c) == "insert" and "HashMap" in c and on_field(bb)}
+    soft = [(bb, last_seg(c)) for bb, t, c in b.calls() if last_seg(c) in (
+        "entry", "or_insert", "or_insert_with", "or_default", "try_insert", "contains_key", "get") and on_field(bb)]
+    rets = {bb for bb in b.reachable if b.term(bb)["k"] == "return"}
+    ok = bool(inserts) and flow.must_pass(b, 0, inserts, rets) and not [x for x in soft if x[1] != "get"]
+    ctx.ob(rule, path, "%s overwrites: HashMap::insert on `%s` on every path" % (last_seg(path), field), ok,
+           key="%s|%s|overwrite" % (rule, path), where=b.loc((soft or [(0, "")])[0][0]), crate=crate.kind,
+           detail=None if ok else "%s: an existing entry is kept - a second definition under the same name is silently ignored" %
+           (", ".join(sorted({x[1] for x in soft})) or "no unconditional insert"))
